@@ -365,7 +365,7 @@ PLANS = {
         ("2ops-3res", [_root(AB, R3, ()), _root(AB, R3, R3), _root(AB, R3, ("r1",))], 8),
         ("3ops-2res", [_root(ABC, R2, ()), _root(ABC, R2, R2), _root(ABC, R2, ("r1",))], 8),
         ("3ops-3res", [_root(ABC, R3, ()), _root(ABC, R3, R3), _root(ABC, R3, ("r1",))], 6),
-        ("3ops-3res-each-holds-one", [_root(ABC, R3, (), EACH), _root(ABC, R3, R3, EACH), _root(ABC, R3, ("r1",), EACH)], 7),
+        ("3ops-3res-each-holds-one", [_root(ABC, R3, (), EACH), _root(ABC, R3, R3, EACH), _root(ABC, R3, ("r1",), EACH)], 6),
     ],
 }
 
@@ -416,6 +416,10 @@ def run(ctx):
         plans=per,
         max_reentrant_hold=MAX_HOLD,
     )
+    ctx.note("reading: an operation whose acquire returned BLOCKED keeps waiting for that resource until it obtains it or "
+             "ends, also across a release and re-acquisition by a third operation (it is still unserved and still on the "
+             "lock's waiting_list); the narrower reading 'waits only while the owner at block time keeps the resource' "
+             "would drop the key waiter-forgotten-after-release and nothing else")
     ctx.assumptions += [
         "histories are bounded by the per-plan depth (all operations already started); no fixpoint is claimed",
         "priority boosts (PriorityInheritance.check_and_boost) and watchdog timeouts are not part of this alphabet: "
